@@ -395,6 +395,73 @@ fn modes_part<'a>(tier: Tier, sys: &'a Sys) -> Part<'a, Sys> {
     }
 }
 
+fn core_part<'a>(tier: Tier, sys: &'a Sys) -> Part<'a, Sys> {
+    Part {
+        name: "save-alt-resize-core-deep",
+        sys,
+        cfgs: match tier {
+            Tier::Quick => cfgs(&[(3, 3)], &[None]),
+            Tier::Thorough => cfgs(&[(3, 3), (2, 2), (4, 2)], &[None, Some(0)]),
+        },
+        alphabet: &crate::alphabets::a_core_deep,
+        depth: tier.pick(10, 13),
+        seconds: tier.pick(20.0, 1800.0),
+        validated: false,
+        nontrivial: None,
+    }
+}
+
+/// "for every prior history": very MANY calls on one terminal. Anything that counts calls,
+/// generations or epochs has to survive more of them than fit in 16 bits (thorough: more
+/// than 2^20); every accessor is called along the way.
+fn long_call_history(ctx: &Ctx, rep: &mut Report) {
+    let n: usize = ctx.tier.pick(70_000, 1_100_000);
+    let scripts: Vec<(&str, Box<dyn Fn(&mut avt::Vt, usize) + Sync>)> = vec![
+        ("feed_str(\"a\") drained", Box::new(|vt, _| { let _ = vt.feed_str("a").scrollback.count(); })),
+        ("feed_str(\"\") dropped", Box::new(|vt, _| { let _ = vt.feed_str(""); })),
+        ("resize alternating 4x2 / 5x3", Box::new(|vt, i| { let _ = if i % 2 == 0 { vt.resize(5, 3) } else { vt.resize(4, 2) }; })),
+        ("feed_str of one line, then a resize every 7th call", Box::new(|vt, i| { let _ = vt.feed_str("xy\r\n"); if i % 7 == 0 { let _ = vt.resize(4 + i % 3, 2 + i % 2); } })),
+        ("screen switches and save / restore", Box::new(|vt, i| { let _ = vt.feed_str(["\x1b[?1049h", "\x1b7", "\x1b[?1049l", "\x1b8", "\x1b[2;3r\x1b[?6h", "\x1b[r\x1b[?6l"][i % 6]); })),
+        ("feed() per character", Box::new(|vt, i| { vt.feed(['a', '\n', '\x1b', '[', 'm'][i % 5]); })),
+    ];
+    use rayon::prelude::*;
+    let bad: Vec<String> = scripts
+        .par_iter()
+        .flat_map(|(name, f)| {
+            [None, Some(0usize), Some(10)]
+                .into_iter()
+                .filter_map(|limit| {
+                    let mut at = 0usize;
+                    let r = crate::engine::guarded(|| {
+                        let mut vt = build_vt(4, 2, limit);
+                        for i in 0..n {
+                            at = i;
+                            f(&mut vt, i);
+                            if i % 4096 == 0 || i + 1 == n {
+                                let _ = (vt.dump(), vt.text(), vt.cursor(), vt.view().len(), vt.lines().len());
+                                if limit.is_none() {
+                                    // keep the unlimited buffer small: the count of calls matters here
+                                    let _ = vt.feed_str("\x1bc");
+                                }
+                            }
+                        }
+                    });
+                    r.err().map(|p| format!("{} (limit {:?}): call {} panicked: {}", name, limit, at + 1, p))
+                })
+                .collect::<Vec<_>>()
+        })
+        .collect();
+    let runs = scripts.len() as u64 * 3;
+    rep.evaluations += runs * n as u64;
+    rep.transitions += runs * n as u64;
+    rep.parts.push(json!({"part":"long-call-history","scripts":scripts.len(),"calls_per_script":n,"limits":3,"violating":bad.len()}));
+    println!("part long-call-history: {} scripts x 3 limits x {} calls, {} violating", scripts.len(), n, bad.len());
+    if let Some(d) = bad.first() {
+        emit_violation(ctx, rep, "C01", json!({"part":"long-call-history","oracle":"panic","observed":d}));
+        rep.violations += bad.len() as u64 - 1;
+    }
+}
+
 fn make_sys(tier: Tier) -> Sys {
     let mut extreme = a_extreme();
     // sizes far from the tiny ones (the work is still what the call requests)
@@ -416,7 +483,9 @@ pub fn run(ctx: &Ctx) -> Report {
     let plain = Sys { extreme: vec![], extreme_depth: 0, second: vec![] };
     run_part(ctx, &mut rep, &deep_part(ctx.tier, &plain));
     run_part(ctx, &mut rep, &modes_part(ctx.tier, &plain));
+    run_part(ctx, &mut rep, &core_part(ctx.tier, &plain));
     sweep(ctx, &mut rep);
+    long_call_history(ctx, &mut rep);
     rep.extra.insert("extreme_alphabet_size".into(), json!(sys.extreme.len()));
     rep.rule = "BFS over op histories (all functions, truncated sequences, resizes incl. 17x2 and 2x9, every Changes treatment) in an overflow-checks + debug-assertions build; every state also gets all read accessors, the same history through TextCollector, and (up to the extreme-layer depth) every extreme-parameter input followed by 9 ordinary ops; plus every listed Unicode scalar fed from every parser state. Oracle: no panic, CPU-time watchdog, per-call allocation envelope".into();
     rep.assumptions = vec![
@@ -442,6 +511,16 @@ pub fn replay(ctx: &Ctx, v: &Value) -> bool {
     if v["part"] == "origin-margins-save-deep" {
         let plain = Sys { extreme: vec![], extreme_depth: 0, second: vec![] };
         return replay_part(ctx, &modes_part(tier, &plain), v);
+    }
+    if v["part"] == "save-alt-resize-core-deep" {
+        let plain = Sys { extreme: vec![], extreme_depth: 0, second: vec![] };
+        return replay_part(ctx, &core_part(tier, &plain), v);
+    }
+    if v["part"] == "long-call-history" {
+        let mut rep = Report::new();
+        let c2 = Ctx { id: ctx.id.clone(), tier, seed: 0, start: ctx.start, known: ctx.known.clone(), replay_dir: ctx.replay_dir.clone() };
+        long_call_history(&c2, &mut rep);
+        return rep.violations > 0;
     }
     if v["part"] == "alt-resize-save-deep" {
         let plain = Sys { extreme: vec![], extreme_depth: 0, second: vec![] };
